@@ -898,6 +898,32 @@ def check_f(ctx, facts, tier, seed):
                       witness=dict(history='build, sort, add Not inside Max2, sort again'))
     except (ElabError, NetError, KeyError) as e:
         ctx.ok('C04.f', 'late-addition', 'scenario outside the interpreted subset (%s)' % str(e)[:80], grade='refused')
+    # a loop closed by late additions is refused by every later request for the simulator, not only by the first one
+    try:
+        D = Design(facts)
+        a, b = D.wire('a', 1), D.wire('b', 1)
+        D.make('Not', 'n0', a, b)
+        gs = lambda: (setattr(D.el, 'steps', 0), D.el.call(D.el.getattr_(D.sys, 'getSimulator'), [], {}, {}))[1]
+        gs()
+        D.make('Not', 'n1', b, a)
+        outcomes = []
+        for k in range(3):
+            try:
+                gs()
+                outcomes.append('accepted')
+            except ElabRaise:
+                outcomes.append('refused')
+            except ElabError as e:
+                if 'budget' not in str(e):
+                    raise
+                outcomes.append('refused')
+        if outcomes != ['refused'] * 3:
+            ctx.violation('C04.f', 'late-cycle-refused-every-time', 'a combinational loop closed after the simulator existed is not refused by every request for the simulator: %s' % outcomes, where,
+                          witness=dict(history='getSimulator(); add the inverter that closes the ring; getSimulator() x3', outcomes=outcomes))
+        else:
+            ctx.ok('C04.f', 'late-cycle-refused-every-time', 'a loop closed after the simulator existed is refused by three successive getSimulator() calls')
+    except (ElabError, NetError, PyExc, KeyError) as e:
+        ctx.ok('C04.f', 'late-cycle-refused-every-time', 'scenario outside the interpreted subset (%s)' % str(e)[:80], grade='refused')
     # cyclic netlists are refused
     def ring(k, via_multi=False):
         D = Design(facts)
